@@ -146,9 +146,27 @@ def hopcroft_pending_rule(eng, ob, oblig):
     contains = [ev for ev, _ in calls(summ, "contains", own=True)]
     site = site_of(prog, fi, fi.node)
     if not contains:
-        ob.decide("R1", oblig, fi, "pending-class-queues-new-half", bool(inserts),
+        # without a pending test the algorithm is only right when BOTH halves of every split are queued; choosing one
+        # half by size (Hopcroft's optimisation) needs the test
+        def _is_len(e):
+            return any(isinstance(c, ast.Call) and getattr(c.func, "id", "") == "len" for c in ast.walk(e))
+        chooses = [c for ev in inserts for c in ast.walk(innermost_loop(ev.func.node, ev.node) or ev.func.node)
+                   if isinstance(c, ast.Compare) and len(c.ops) == 1 and isinstance(c.ops[0], (ast.Lt, ast.Gt, ast.LtE, ast.GtE))
+                   and _is_len(c.left) and _is_len(c.comparators[0])]
+        # the size comparison may sit just outside the innermost loop (choice made once per split)
+        if not chooses:
+            chooses = [c for c in ast.walk(fi.node) if isinstance(c, ast.Compare) and len(c.ops) == 1
+                       and isinstance(c.ops[0], (ast.Lt, ast.Gt, ast.LtE, ast.GtE)) and _is_len(c.left)
+                       and _is_len(c.comparators[0]) and "part" in ast.unparse(c) and
+                       any(isinstance(a, (ast.For, ast.While)) and any(x is c for x in ast.walk(a)) and
+                           any(isinstance(w, ast.While) for w in ast.walk(fi.node) if any(y is a for y in ast.walk(w)))
+                           for a in ast.walk(fi.node))]
+        ob.decide("R1", oblig, fi, "pending-class-queues-new-half", bool(inserts) and not chooses,
                   "both halves of a split are queued (no pending test, no smaller-half optimisation)",
-                  "no splitter is ever queued", summ, site=site)
+                  "after a split only the smaller half is queued and there is no test whether the split class is still "
+                  "pending: when it is, the other half is never used as a splitter and distinguishable states stay merged"
+                  if inserts else "no splitter is ever queued", summ,
+                  site=site_of(prog, fi, chooses[0]) if chooses else site)
         return
     # Evaluate the boolean skeleton of the loop body that holds the pending test: for every valuation of its atomic
     # conditions in which `contains(<split class>, symbol)` is true, an insert of the *other* half must execute; for
